@@ -278,6 +278,7 @@ class Backend(ABC):
 
             error_state = "finalizing query for"
             # 3. Postprocess generated query if not part of a correlation rule
+            subqueries_finalized = self.finalize_correlation_subqueries or not rule._backreferences
             finalized_queries = (
                 [
                     self.finalize_query(
@@ -289,10 +290,12 @@ class Backend(ABC):
                     )
                     for index, query in enumerate(queries)
                 ]
-                if self.finalize_correlation_subqueries or not rule._backreferences
+                if subqueries_finalized or rule._output
                 else queries
             )
-            rule.set_conversion_result(finalized_queries)
+            # Correlation rules embed the queries without finalization if the backend doesn't
+            # demands it, the queries emitted for the rule itself are always finalized.
+            rule.set_conversion_result(finalized_queries if subqueries_finalized else queries)
             rule.set_conversion_states(states)
             if rule._output:
                 return finalized_queries
